@@ -12,7 +12,8 @@
 (* of a history short.                                                     *)
 (***************************************************************************)
 EXTENDS Integers, Sequences, FiniteSets, TLC, Json
-CONSTANTS Types, Arity, Insertable, Definable, EquateTypes, Pre, MaxOps, MaxAsserts, MaxStop, MaxHandles
+CONSTANTS Types, Arity, Insertable, Definable, EquateTypes, Pre, MaxOps, MaxAsserts, MaxStop, MaxHandles,
+          NewTypes       \* types with a public new_ function: elements may also be created late (after closes)
 VARIABLES nh, hist, nassert
 vars == <<nh, hist, nassert>>
 ResT(f) == Arity[f][Len(Arity[f])]
@@ -32,12 +33,15 @@ Define == \E f \in Definable : \E t \in HandleTuples(ArgTypes(f)) :
 Equate == \E T \in EquateTypes : \E a, b \in 0..(MaxHandles - 1) :
             /\ a < b /\ b < nh[T] /\ nassert < MaxAsserts
             /\ hist' = Append(hist, Op("equate", "", T, <<>>, a, b, 0)) /\ nassert' = nassert + 1 /\ nh' = nh
+New == \E T \in NewTypes :
+            /\ nh[T] < MaxHandles
+            /\ hist' = Append(hist, Op("new", "", T, <<>>, 0, 0, 0)) /\ nh' = [nh EXCEPT ![T] = @ + 1] /\ nassert' = nassert
 Close == /\ ~LastIsClose /\ hist # <<>>
          /\ hist' = Append(hist, Op("close", "", "", <<>>, 0, 0, -1)) /\ UNCHANGED <<nh, nassert>>
 CloseUntil == \E k \in 0..MaxStop :
          /\ hist # <<>> /\ (LastIsClose => hist[Len(hist)].op = "close_until")
          /\ hist' = Append(hist, Op("close_until", "", "", <<>>, 0, 0, k)) /\ UNCHANGED <<nh, nassert>>
-Next == Len(hist) < MaxOps /\ (Insert \/ Define \/ Equate \/ Close \/ CloseUntil)
+Next == Len(hist) < MaxOps /\ (Insert \/ Define \/ Equate \/ New \/ Close \/ CloseUntil)
 Spec == Init /\ [][Next]_vars
 \* every history of maximal length is emitted once (shorter ones are prefixes of these)
 Emit == Len(hist) = MaxOps => PrintT(<<"REPLAY", ToJson(hist)>>)
